@@ -162,9 +162,9 @@ def main(ck):
     tmpl = os.path.join(ck.repo, "config", "openGemini.singlenode.conf")
     corpus = sorted(glob.glob(os.path.join(ck.verif, "corpus", PID, "*.json")))
     if ck.replay:
-        nds, nq, files = 0, 0, [ck.replay]
+        nds, nq, files = 0, 0, [os.path.abspath(ck.replay)]
     elif ck.tier == "quick":
-        nds, nq, files = 3, 40, corpus
+        nds, nq, files = 4, 40, corpus
     else:
         nds, nq, files = 12, 80, corpus
     rc, out = ck.run([binp, server, tmpl, str(nds), str(nq)] + files, timeout=3000)
@@ -209,7 +209,11 @@ def main(ck):
             "dataset": ds, "queries": [c["query"]], "inner": inner})
     if ck.replay:
         for c in cases:
-            ck.log("replay:", c["sql"], "failures:", [(f["kind"], f["config"], explain(c, f)) for f in c["failures"]])
+            kinds = {}
+            for f in c["failures"]:
+                k = (f["kind"], tuple(explain(c, f)))
+                kinds[k] = kinds.get(k, 0) + 1
+            ck.log("replay:", c["sql"], "| executions:", c["nconfigs"], "| failing oracle/finding-signature counts:", kinds or "none")
 
     # ---- the Coq L1 model recomputes every reference answer (ascending and descending)
     files = []
